@@ -1908,6 +1908,11 @@ class SpaceUpdater(SharedSpaceOperations):
         for b in basenodes:
             self._graph.remove_edge(b, node)
 
+        # Without the bases, a sub space may have no MRO any more
+        for n in itertools.chain({node}, nx.descendants(
+                self._graph, node)):
+            self._graph.get_mro(n)
+
         self._instructions.append(
             Instruction(self._update_derived_space, (node,))
         )
@@ -1949,7 +1954,16 @@ class SpaceUpdater(SharedSpaceOperations):
         # except for those removed themselves
         self._schedule_subs_update(nodes_removed)
 
+        subs = set()
+        for n in nodes_removed:
+            subs.update(nx.descendants(self._graph, n))
+        subs.difference_update(nodes_removed)
+
         self._graph.remove_nodes_from(nodes_removed)
+
+        # Without the spaces, a sub space may have no MRO any more
+        for n in subs:
+            self._graph.get_mro(n)
 
         self._instructions.execute()
         self._update_manager()
